@@ -80,6 +80,59 @@ package packet
 //@ 	_, ok := v.(types.ASPath)
 //@ 	return ok
 //@ }
+//@ func spec_clusterLen(v interface{}) int {
+//@ 	c, ok := v.(*types.ClusterList)
+//@ 	if !ok || c == nil {
+//@ 		return 0
+//@ 	}
+//@ 	return len(*c)
+//@ }
+//@ func spec_isCommunities(v interface{}) bool {
+//@ 	if v == nil {
+//@ 		return true
+//@ 	}
+//@ 	c, ok := v.(*types.Communities)
+//@ 	return ok && c != nil
+//@ }
+//@ func spec_communitiesLen(v interface{}) int {
+//@ 	c, ok := v.(*types.Communities)
+//@ 	if !ok || c == nil {
+//@ 		return 0
+//@ 	}
+//@ 	return len(*c)
+//@ }
+//@ func spec_isLargeCommunities(v interface{}) bool {
+//@ 	if v == nil {
+//@ 		return true
+//@ 	}
+//@ 	c, ok := v.(*types.LargeCommunities)
+//@ 	return ok && c != nil
+//@ }
+//@ func spec_largeCommunitiesLen(v interface{}) int {
+//@ 	c, ok := v.(*types.LargeCommunities)
+//@ 	if !ok || c == nil {
+//@ 		return 0
+//@ 	}
+//@ 	return len(*c)
+//@ }
+//@ func spec_isBytes(v interface{}) bool {
+//@ 	_, ok := v.([]byte)
+//@ 	return ok
+//@ }
+//@ func spec_bytesLen(v interface{}) int {
+//@ 	b, ok := v.([]byte)
+//@ 	if !ok {
+//@ 		return 0
+//@ 	}
+//@ 	return len(b)
+//@ }
+//@ func spec_isClusterList(v interface{}) bool {
+//@ 	if v == nil {
+//@ 		return true
+//@ 	}
+//@ 	c, ok := v.(*types.ClusterList)
+//@ 	return ok && c != nil
+//@ }
 //@ // the AS path under construction lives in an array of its own (appending to it writes no other object)
 //@ func spec_ownASPath(v interface{}) bool {
 //@ 	a, ok := v.(types.ASPath)
@@ -271,3 +324,67 @@ package packet
 //@   ensures result1 == nil ==> result0 != nil
 //@   ensures[C19] result1 == nil && len0 <= 4096 ==> 4+uint32(result0.WithdrawnRoutesLen)+uint32(result0.TotalPathAttrLen) <= uint32(l)
 //@   ensures[C19] result1 == nil && len0 <= 4096 ==> len0 - buf.Len() == int(l)
+
+// Property C17: what the attribute serializers emit is well-formed. For each
+// serializer: the returned size is the number of bytes appended to the buffer,
+// and the attribute header is consistent with what follows - with the
+// extended-length flag the two length octets, without it the one length octet,
+// hold the number of value bytes that follow (so a length that does not fit its
+// field is a failed obligation).
+//@ spec
+//@ // the bytes appended since the buffer held n0 bytes form one attribute: flags, type code t, length, value
+//@ func spec_attrAt(buf *bytes.Buffer, n0 int, t uint8) bool {
+//@ 	b := buf.Bytes()
+//@ 	w := len(b) - n0
+//@ 	if w < 3 || b[n0+1] != t {
+//@ 		return false
+//@ 	}
+//@ 	if b[n0]&16 != 0 {
+//@ 		return w >= 4 && w-4 == int(b[n0+2])*256+int(b[n0+3])
+//@ 	}
+//@ 	return w-3 == int(b[n0+2])
+//@ }
+//@ end
+
+// A CLUSTER_LIST of up to 63 identifiers (252 bytes) fits the one-octet length.
+//@ contract (*PathAttribute).serializeClusterList
+//@   props C17
+//@   requires pa != nil && buf != nil && spec_isClusterList(pa.Value)
+//@   old n0 int = buf.Len()
+//@   old n int = spec_clusterLen(pa.Value)
+//@   ensures n <= 63 ==> int(result) == buf.Len() - n0
+//@   ensures n <= 63 && buf.Len() > n0 ==> spec_attrAt(buf, n0, ClusterListAttr)
+//@   ensures n > 63 ==> int(result) == buf.Len() - n0 && spec_attrAt(buf, n0, ClusterListAttr)
+//@   modifies buf
+//@   loop 0 vars rangeindex int, cids *types.ClusterList
+//@   loop 0 invariant buf.Len() == n0 + 3 + 4*(rangeindex+1) && buf.Bytes()[n0] == 128 && buf.Bytes()[n0+1] == ClusterListAttr && buf.Bytes()[n0+2] == uint8(4*len(*cids))
+
+// An unknown attribute is passed on with its value; a value of more than 255
+// bytes is sent with the extended-length flag whatever the stored flag says.
+//@ contract (*PathAttribute).serializeUnknownAttribute
+//@   props C17
+//@   requires pa != nil && buf != nil && spec_isBytes(pa.Value) && spec_bytesLen(pa.Value) <= 65000
+//@   old n0 int = buf.Len()
+//@   old n int = spec_bytesLen(pa.Value)
+//@   ensures spec_attrAt(buf, n0, pa.TypeCode)
+//@   ensures !pa.ExtendedLength && n <= 255 ==> int(result) == buf.Len() - n0
+//@   ensures pa.ExtendedLength || n > 255 ==> int(result) == buf.Len() - n0
+//@   modifies buf
+
+// The pieces of an UPDATE are serialized into buffers of their own.
+//@ contract (*NLRI).serialize, (*PathAttribute).Serialize
+//@   props C17
+//@   trusted the NLRI and attribute serializers write only the buffer they are given (their bodies are under contract only in part)
+//@   modifies buf
+
+//@ contract (*BGPUpdate).SerializeUpdate
+//@   props C17
+//@   nosafety
+//@   requires b != nil && opt != nil
+//@   ensures result1 == nil ==> len(result0) <= 4096 && len(result0) >= 23
+//@   loop 0 vars buf *bytes.Buffer
+//@   loop 0 invariant buf != nil && buf.Len() == 0
+//@   loop 1 vars buf *bytes.Buffer
+//@   loop 1 invariant buf != nil && buf.Len() == 0
+//@   loop 2 vars buf *bytes.Buffer
+//@   loop 2 invariant buf != nil && buf.Len() == 0
